@@ -38,6 +38,8 @@ Class(proto, r) ==
     [] r.kind = "hold" -> "aborted"       \* request held by the collector until the client abandoned it
     [] r.kind = "tmpnet" -> "retryable"   \* no answer within the client's per-attempt timeout: temporary network error
     [] r.kind = "hung" -> "retryable"     \* gRPC: no answer until the export timeout (DEADLINE_EXCEEDED on the client)
+    [] r.kind = "tempnet" -> "retryable"  \* transport fault that is temporary WITHOUT being a time-out (injected in the client's transport)
+    [] r.kind = "permnet" -> "final"      \* transport fault that is not temporary: the statement lists only temporary network errors
     [] r.kind = "close" -> "either"       \* connection closed without an answer: the statement leaves it open
     [] r.kind = "status" /\ proto = "http" ->
          IF r.code >= 200 /\ r.code <= 299 THEN (IF r.partial THEN "partial" ELSE "success")
@@ -95,7 +97,8 @@ OnAttempt(m, e) ==
   LET cls == CurClass(m)
       thr == CurThr(m)
       c == m.cfg
-      m2 == [m EXCEPT !.n = e.n, !.hash0 = IF m.n = 0 THEN e.hash ELSE @, !.firstT = IF m.n = 0 THEN e.t ELSE @,
+      \* hash "-" = the attempt failed in the client's transport before a payload could be observed
+      m2 == [m EXCEPT !.n = e.n, !.hash0 = IF @ = "" /\ e.hash # "-" THEN e.hash ELSE @, !.firstT = IF m.n = 0 THEN e.t ELSE @,
                       !.lastAttT = e.t, !.answered = FALSE, !.attAfterStop = @ \/ Stopped(m)]
       retry == m.n > 0
   IN <<m2,
@@ -105,7 +108,7 @@ OnAttempt(m, e) ==
        \cup (IF retry /\ ~c.enabled THEN {V("retry-when-disabled", FALSE, m, 0)} ELSE {})
        \cup (IF retry /\ c.enabled /\ cls \in {"success", "partial", "final"} /\ Delivered(m)
                THEN {V("retry-after-nonretryable", Flaky(m), m, 0)} ELSE {})
-       \cup (IF retry /\ e.hash # m.hash0 THEN {V("payload-differs", FALSE, m, 0)} ELSE {})
+       \cup (IF retry /\ e.hash # "-" /\ m.hash0 # "" /\ e.hash # m.hash0 THEN {V("payload-differs", FALSE, m, 0)} ELSE {})
        \cup (IF retry /\ thr > 0 /\ e.t - m.last.t < thr THEN {V("throttle-not-honoured", Flaky(m), m, e.t - m.last.t)} ELSE {})
        \cup (IF retry /\ c.enabled /\ c.maxel # 0 /\ m.answered /\ (m.last.t - m.firstT) + thr > c.maxel
                THEN {V("attempt-after-max-elapsed", Flaky(m), m, (m.last.t - m.firstT) + thr)} ELSE {})
@@ -160,7 +163,7 @@ Step(m, e) ==
     [] e.ev = "Resp" ->
          IF e.n = m.n
            THEN <<[m EXCEPT !.last = [n |-> e.n, kind |-> e.kind, code |-> e.code, partial |-> e.partial, ri |-> e.ri,
-                                     thr |-> e.thr, t |-> e.t, acked |-> FALSE],
+                                     thr |-> e.thr, t |-> e.t, acked |-> e.kind \in {"tempnet", "permnet"}],
                             !.answered = TRUE], {}>>
            ELSE <<m, {}>>
     [] e.ev = "Got" -> <<[m EXCEPT !.last.acked = m.answered], {}>>
